@@ -75,4 +75,12 @@ PROPS = {
                     "'printing never alters the stored values' is a runtime clause: checked by the harness snapshot"],
         "assumptions": ["exact rational arithmetic in the model"],
     },
+    "C01": {"harness": "c01", "theorems": [], "partial": [], "assumptions": []},
+    "C07": {"harness": "c07", "theorems": [], "partial": [], "assumptions": []},
+    "C04": {"harness": "c04", "theorems": [], "partial": [], "assumptions": []},
+    "C03": {"harness": "c03", "theorems": [], "partial": [], "assumptions": []},
+    "C05": {"harness": "c05", "theorems": [], "partial": [], "assumptions": []},
+    "C02": {"harness": "c02", "theorems": [], "partial": [], "assumptions": []},
+    "C08": {"harness": "c08", "theorems": [], "partial": [], "assumptions": []},
+    "C06": {"harness": "c06", "theorems": [], "partial": [], "assumptions": []},
 }
